@@ -249,7 +249,15 @@ func c19WSRaw(tier string, c c19Case, r *rand.Rand, res *core.Result) {
 			switch r.Intn(6) {
 			case 0:
 				typ, what = websocket.MessageText, "text-frame"
-				raw = []byte("hello " + fmt.Sprint(n))
+				switch n % 3 {
+				case 0:
+					raw = []byte("hello " + fmt.Sprint(n))
+				case 1:
+					// a text frame whose payload happens to be a well-formed envelope encoding (all ASCII)
+					raw, _ = proto.Marshal(&wire.Rpc{Id: 7, Header: &goatorepo.RequestHeader{Method: "/a/b", Source: "s", Destination: "d"}, Body: &goatorepo.Body{Data: []byte("ascii")}})
+				default:
+					raw = []byte{} // empty text message = encoding of the empty envelope
+				}
 			case 1:
 				if len(raw) > 1 {
 					raw = raw[:r.Intn(len(raw))]
